@@ -92,6 +92,8 @@ pub struct LspContext {
     codegen: Option<Arc<Mutex<CodegenContext>>>,
     parsing_source: Arc<Mutex<LspParsingSource>>,
     shutdown_manager: Arc<Mutex<ShutdownManager>>,
+    /// The files for which diagnostics were published most recently
+    published_files: Vec<String>,
     #[cfg(test)]
     responses: Arc<Mutex<Vec<lsp_server::Response>>>,
 }
@@ -175,6 +177,7 @@ impl LspContext {
             codegen: None,
             parsing_source: Arc::new(Mutex::new(LspParsingSource::new())),
             shutdown_manager: Arc::new(Mutex::new(ShutdownManager::new())),
+            published_files: vec![],
             #[cfg(test)]
             responses: Arc::new(Mutex::new(vec![])),
         }
